@@ -1352,11 +1352,14 @@ func (m *Memberlist) readUserMsg(bufConn io.Reader, dec *codec.Decoder) error {
 		if err != nil {
 			return err
 		}
+	}
 
-		d := m.config.Delegate
-		if d != nil {
-			d.NotifyMsg(userBuf)
-		}
+	// Hand the message to the delegate, also when it is empty: the sender was
+	// told that delivery succeeded, and the packet path delivers empty
+	// messages as well.
+	d := m.config.Delegate
+	if d != nil {
+		d.NotifyMsg(userBuf)
 	}
 
 	return nil
